@@ -535,4 +535,13 @@ def r9_8(ctx: Ctx) -> RuleResult:
                                       "jsonpath.serialize", "jsonpath.fluent_api"), floor=200)
 
 
-RULES = [r9_1, r9_2, r9_3, r9_4, r9_5, r9_6, r9_7, r9_8]
+def r9_9(ctx: Ctx) -> RuleResult:
+    """Evaluation never modifies the document - also not the projecting evaluation `Query.select()`, which builds new
+    containers out of parts of the document: Query._select executed abstractly on covering selections (= R19.11, its
+    purity clause only) must leave the document the same objects with the same content."""
+    from .c19 import projection_by_execution
+
+    return projection_by_execution(ctx, "R9.9", floor=30, only_purity=True)
+
+
+RULES = [r9_1, r9_2, r9_3, r9_4, r9_5, r9_6, r9_7, r9_8, r9_9]
